@@ -8,7 +8,7 @@ CID_TEXT = "d,format,delimited\nf,id,,,,Integer\nf,kind\nc,u,IsUnique,id\nc,k,Di
 FIXED_CID_TEXT = "d,format,fixed\nd,line delimiter,lf\nf,id,,,1,Integer\nf,kind,,,1\nc,u,IsUnique,id\nc,k,DistinctCount,kind < 3\n"
 CLEAN = "1,a\n2,b\n"; DUP = "1,a\n1,b\n"; MANY = "1,a\n2,b\n3,c\n"        # MANY fails the distinct count at the end
 OTHER = "5,x\n6,y\n"                                                        # fine on its own; together with what CLEAN leaves behind it would exceed the distinct count
-OPS = ["read_clean", "read_dup", "read_many", "abandon1", "abandon2", "read_noclose", "write", "write_close", "write_dup", "two_readers", "validate_0", "validate_1", "reader_unused", "read_other", "write_nothing"]
+OPS = ["read_clean", "read_dup", "read_many", "abandon1", "abandon2", "read_noclose", "write", "write_close", "write_dup", "two_readers", "validate_0", "validate_1", "reader_unused", "read_other", "write_nothing", "rows_fed_directly"]
 
 
 def run_op(cid, op):
@@ -42,6 +42,16 @@ def run_op(cid, op):
     if op == "read_noclose":
         def f():
             r = validio.Reader(cid, io.StringIO(T(CLEAN))); return [x for x in r.rows()]      # never closed
+        return outcome(f)
+    if op == "rows_fed_directly":                  # a run that feeds its rows to validate_row() itself (the documented way to validate rows that come from somewhere else) and is then closed
+        def f():
+            r = validio.Reader(cid, io.StringIO("")); res = []
+            for row in (["1", "a"], ["2", "b"], ["2", "c"], ["3", "d"]):
+                try: r.validate_row([x for x in row]); res.append("ok")
+                except errors.DataError as e: res.append("rejected:" + e.message[:30])
+            try: r.close(); res.append("closed")
+            except errors.DataError as e: res.append("end:" + e.message[:30])
+            return res
         return outcome(f)
     if op == "write_nothing":                      # a writer that is closed without having written a row: the end-of-data checks see an empty data set
         def f():
